@@ -308,6 +308,9 @@ func (m *Machine) itemDesc(it *Item) string {
 }
 
 func shortPos(p string) string {
+	if j := strings.Index(p, " ("); j >= 0 {
+		p = p[:j]
+	}
 	i := strings.LastIndex(p, "/")
 	if i >= 0 {
 		return p[i+1:]
